@@ -11,7 +11,8 @@ FRAGMENTS = ["get_buf_count", "fast_blocks", "full_blocks"]
 DRIVER = "drvcorr"
 RULE = ("correspondence: the block schedule (start, stop, size of every crop_function call) of the real "
         "process_frame_fast/full for every (n_peaks, buf_count) in the exhaustive range vs the model's "
-        "schedule, and get_buf_count on a grid incl. limits around full_size; oracle: outputs for buffer "
+        "schedule, and get_buf_count on a grid incl. limits around full_size; oracle: the statement's bounds of get_buf_count / "
+        "allocate_crop_bufs on the implementation for limits around the crop size; outputs for buffer "
         "counts / permutations / duplicates / added+removed peaks vs the one-block run (1e-5 relative, "
         "centres exact unless the maximum is tied within tolerance). Non-trivial: more than one block or "
         "buffer larger than the peak list (distinct = distinct (pipeline, n, b) / case hashes).")
@@ -116,6 +117,25 @@ def compare_outputs(base, other, idx_base, idx_other, what, us):
 
 
 def run_case(kind, params):
+    if kind == "bufcount":
+        # the statement itself, on the implementation: 1 <= result <= n_peaks, and result * crop bytes <= limit whenever
+        # a single crop fits; allocate_crop_bufs allocates exactly that many crops of (2c, 2c)
+        c, n, dt, limit = params["c"], params["n"], np.dtype(params["dtype"]), params["limit"]
+        msgs = []
+        try:
+            r = int(bc.get_buf_count(c, n, dt, limit))
+            full = (2 * c) ** 2 * dt.itemsize
+            if not 1 <= r <= n:
+                msgs.append(f"get_buf_count(crop_size={c}, n_peaks={n}, {dt}, limit={limit}) = {r} is not in [1, {n}]")
+            if full <= limit and r * full > limit:
+                msgs.append(f"get_buf_count(crop_size={c}, n_peaks={n}, {dt}, limit={limit}) = {r}: {r} crops of {full} bytes "
+                            f"exceed the limit although one crop fits")
+            bufs = bc.allocate_crop_bufs(c, n, dt, limit=limit)
+            if bufs.shape != (max(r, 0), 2 * c, 2 * c) or bufs.dtype != dt:
+                msgs.append(f"allocate_crop_bufs gives {bufs.shape} {bufs.dtype} for buffer count {r}, crop size {c}, {dt}")
+        except Exception as e:
+            msgs.append(f"get_buf_count / allocate_crop_bufs raised {type(e).__name__}: {e}")
+        return msgs
     rng = np.random.default_rng(params["seed"])
     shape = tuple(params["shape"])
     frame = impl.noise_frame(rng, shape, params["frame_kind"])
@@ -168,6 +188,17 @@ def search(ctx, boost=1, focus=()):
         msgs = run_case("invariance", params)
         ctx.oracle_case("invariance", params, msgs, nontrivial=len(params["peaks"]) > 1)
         ctx.count("oracle_" + params["pipeline"] + ("_us" if params["upsample"] else ""))
+    for k in range((400 if ctx.tier == "thorough" else 120) * boost):
+        c = int(rng.integers(1, 40))
+        dt = ("uint8", "int16", "float32", "float64", "complex128")[k % 5]
+        full = (2 * c) ** 2 * np.dtype(dt).itemsize
+        npk = int(rng.choice([1, 2, 3, 10, 100, 5000]))
+        limit = int(rng.choice([0, 1, full - 1, full, full + 1, 2 * full - 1, 3 * full, npk * full - 1, npk * full,
+                                npk * full + 7, 2 ** 19, int(rng.integers(0, 4 * full + 2))]))
+        p = {"c": c, "n": npk, "dtype": dt, "limit": limit}
+        ctx.oracle_case("bufcount", p, run_case("bufcount", p), nontrivial=(full <= limit < npk * full),
+                        hkey=("obc", c, npk, dt, limit))
+    ctx.count("oracle_bufcount")
 
 
 def extra_coverage(ctx):
